@@ -307,10 +307,13 @@ impl TmplGroup {
         let mut w = JsTopScopeWriter::new(String::new());
         w.function_scope(|w| {
             runtime_fns(w, self.has_scripts)?;
+            if self.extra_runtime_string.len() > 0 {
+                w.custom_stmt_str(&self.extra_runtime_string)?;
+            }
             Ok(())
         })
         .unwrap();
-        w.finish() + self.extra_runtime_string.as_str()
+        w.finish()
     }
 
     /// Output js runtime environment js var name list.
